@@ -48,7 +48,8 @@ enum { OPF_MAY_FAIL = 1,      // NULL is an acceptable answer even without an in
        OPF_NO_FILL = 2,       // do not write the pattern (huge virtual blocks are sampled anyway)
        OPF_EXPLICIT_DONE = 4,
        OPF_WATCH = 8,         // free: remember the range; purge_check later demands that it was purged
-       OPF_SENTINEL = 16 };   // free: a sentinel of a purge activity round
+       OPF_SENTINEL = 16,
+       OPF_MUST_SUCCEED = 32 };  // NULL is a violation even after earlier (healed) faults   // free: a sentinel of a purge activity round
 
 struct Program { std::vector<Op> ops; bool explicit_done = false; bool reuse_id = false; };
 
